@@ -81,6 +81,12 @@ def job(chk, item):
                 label, expr = fam.forms_for(fkey, b)[i]
                 su = fam.build_file(b, pos, expr)
                 results.append(fam.run_case(chk, e, det, su, '%s @ %s' % (label, pos), {v.decl().name() for v in b.loc_vars}))
+            if pos in ('statement', 'catch_body', 'call_argument') and fkey == det:
+                for k in range(len(fam.symbolic_name_forms(det, sol.TreeBuilder()))):
+                    b = sol.TreeBuilder()
+                    label, expr, cons = fam.symbolic_name_forms(det, b)[k]
+                    su = fam.build_file(b, pos, expr)
+                    results.append(fam.run_case(chk, e, det, su, '%s @ %s' % (label, pos), {v.decl().name() for v in b.loc_vars}, base=cons))
     elif kind == 'selfdestruct':
         for (fk, vis, mod, kill, guard, shape, where) in item[1]:
             b = sol.TreeBuilder()
